@@ -95,7 +95,7 @@ def run(chk):
         grid = [I32[0] - 1, I32[0], I32[0] + 1, -1, 0, 1, I32[1] - 1, I32[1], I32[1] + 1, 2**32, -2**32, 2**63, -2**63] + \
                [rng.randrange(-2**33, 2**33) for _ in range(4 if chk.tier == "quick" else 40)]
         fields = int_fields(mmv)
-        pkg = json.load(open(os.path.join(V.GEN, "pkg.json"))) if os.path.exists(os.path.join(V.GEN, "pkg.json")) else {"classes": []}
+        pkg = CS.load_pkg(mmv)
         req_fields = []
         for sn, pn, kind, opt in fields:
             if sn not in pkg["classes"]:
